@@ -65,6 +65,7 @@ func main() {
 		fmt.Fprintf(os.Stderr, "internal error: %v\n", err)
 		os.Exit(2)
 	}
+	findings.Active = fs
 	if *worker != "" {
 		os.Exit(runWorker(p, fs, *tier, *worker, *out))
 	}
@@ -94,6 +95,7 @@ func runWorker(p *core.Prop, fs *findings.Set, tier, spec, out string) int {
 	res := core.NewResult()
 	res.Classifier = fs.Classifier(p.ID)
 	res.CurTier = tier
+	res.CurWorker = spec
 	for _, ui := range assign[i] {
 		res.CurUnit = units[ui].Name
 		func() {
@@ -388,6 +390,9 @@ func doReplay(path string) int {
 		fmt.Fprintln(os.Stderr, err)
 		return 2
 	}
+	if fs, err := findings.Load(filepath.Join(root, "known_findings.json")); err == nil {
+		findings.Active = fs
+	}
 	p := core.Get(v.Property)
 	if p == nil || p.Replay == nil {
 		fmt.Fprintln(os.Stderr, "no replay for property", v.Property)
@@ -414,25 +419,39 @@ func replayUnit(p *core.Prop, v *core.Violation) int {
 		fmt.Fprintln(os.Stderr, err)
 		return 2
 	}
+	findings.Active = fs
 	tier := v.Tier
 	if tier == "" {
 		tier = "quick"
 	}
-	for _, u := range p.Units(tier) {
+	units := p.Units(tier)
+	// the history is the sequence of units the original worker ran before (and including) the unit
+	var seq []int
+	var wi, wn int
+	if n, _ := fmt.Sscanf(v.Worker, "%d/%d", &wi, &wn); n == 2 && wn > 0 && wi < wn {
+		seq = core.Assign(units, wn)[wi]
+	} else {
+		for i := range units {
+			seq = append(seq, i)
+		}
+	}
+	res := core.NewResult()
+	res.Classifier = fs.Classifier(p.ID)
+	res.CurTier, res.CurWorker = tier, v.Worker
+	for _, ui := range seq {
+		u := units[ui]
+		res.CurUnit = u.Name
+		u.Run(res)
 		if u.Name != v.Unit {
 			continue
 		}
-		res := core.NewResult()
-		res.Classifier = fs.Classifier(p.ID)
-		res.CurUnit, res.CurTier = u.Name, tier
-		u.Run(res)
 		for _, n := range res.New {
 			if n.Key() == v.Key() {
-				fmt.Printf("REPLAY property=%s %s/%s inputs=%q: still fails when unit %s is re-enumerated from a fresh process (history-dependent): %s\n", v.Property, v.Scope, v.Kind, v.Inputs, u.Name, n.Got)
+				fmt.Printf("REPLAY property=%s %s/%s inputs=%q: still fails when the worker's unit sequence up to %s is re-enumerated in a fresh process (history-dependent): %s\n", v.Property, v.Scope, v.Kind, v.Inputs, u.Name, n.Got)
 				return 1
 			}
 		}
-		fmt.Printf("REPLAY property=%s %s/%s inputs=%q: passes (unit %s re-enumerated)\n", v.Property, v.Scope, v.Kind, v.Inputs, u.Name)
+		fmt.Printf("REPLAY property=%s %s/%s inputs=%q: passes (unit sequence up to %s re-enumerated)\n", v.Property, v.Scope, v.Kind, v.Inputs, u.Name)
 		return 0
 	}
 	fmt.Fprintln(os.Stderr, "unit not found:", v.Unit)
